@@ -71,6 +71,11 @@ func (c *caseOrderChecker) checkTypeSwitch(s *ast.TypeSwitchStmt) {
 					break
 				}
 			}
+			if _, ok := typ.(*types.TypeParam); ok {
+				// `case T` with a type parameter T matches its type argument only;
+				// the underlying type of T is its constraint, not what the case accepts.
+				continue
+			}
 			if iface, ok := typ.Underlying().(*types.Interface); ok {
 				ifaces = append(ifaces, ifaceType{node: x, typ: iface})
 			}
